@@ -977,8 +977,8 @@ pub fn run(cfg: &Cfg, rep: &mut Report) -> PropMeta {
     // ---- rns_plain
     timed(rep, "rns_plain", |rep| run_cases(cfg, "rns_plain", cfg.n(2000, 20000) as u64, rep, |i, rng, rep| rns_case(cfg, i, rng, rep)));
 
-    let rule_quick = "Cheetah MatmulHelper: every shape (m,r,n) in [1,10]^3 plus the boundary shapes with dimensions from {N-1,N,N+1,2N+1,3N} (one, two or three large dimensions), at N in {8,16,32} x {BFV t=2^k, CKKS} x 3 objectives x pack_lwe on/off x {matmul, matmul_reverse, and their sum for CpAddPc}: this finite configuration space is enumerated completely (operand value class, t, transport {serialize_terms, serialize, none} and encryption mode are sampled per configuration). BOLT Cp/CcCr/CcDc: every shape in [1,8]^3 plus 9 shapes beyond N/2 rows at N in {16,32}. Conv2dHelper: 9 designated shapes x 12 variants plus 8000 sampled (batch, cin, cout in [1,3], kernel 1..4 x 1..4, image up to 12x12, N in {32,64,128}, 3 objectives, both directions, BFV/CKKS). rns_plain: 2000 programs (2-4 plain moduli, slot and polynomial mode). distinct = distinct (helper, N, scheme, objective, packing, direction, shape) with a non-zero weight operand";
-    let rule_thorough = "Cheetah MatmulHelper: every shape (m,r,n) in [1,10]^3 plus the boundary shapes with dimensions from {N-1,N,N+1,2N+1,3N} (one, two or three large dimensions), at N in {8,16,32} x {BFV t=2^k, CKKS} x 3 objectives x pack_lwe on/off x {matmul, matmul_reverse, and their sum for CpAddPc}: this finite configuration space is enumerated completely (operand value class, t, transport {serialize_terms, serialize, none} and encryption mode are sampled per configuration); plus 4 example shapes at N in {1024,4096,8192}. BOLT Cp/CcCr/CcDc: every shape in [1,8]^3 plus 9 shapes beyond N/2 rows at N in {16,32}, plus partial-last-block shapes at N in {64,256,1024,4096}. Conv2dHelper: 9 designated shapes x 12 variants, 120000 sampled (batch, cin, cout in [1,3], kernel 1..4 x 1..4, image up to 12x12, N in {32,64,128}, 3 objectives, both directions, BFV/CKKS) and 4 large shapes at N in {1024,4096}. rns_plain: 20000 programs (2-4 plain moduli, slot and polynomial mode). distinct = distinct (helper, N, scheme, objective, packing, direction, shape) with a non-zero weight operand";
+    let rule_quick = "Cheetah MatmulHelper: every shape (m,r,n) in [1,10]^3 plus the boundary shapes with dimensions from {N-1,N,N+1,2N+1,3N} (one, two or three large dimensions), at N in {8,16,32} x {BFV t=2^k, CKKS} x 3 objectives x pack_lwe on/off x {matmul, matmul_reverse, and their sum for CpAddPc}: this finite configuration space is enumerated completely (operand value class, t, transport {serialize_terms, serialize, none} and encryption mode are sampled per configuration). BOLT Cp/CcCr/CcDc: every shape in [1,8]^3 plus 9 shapes beyond N/2 rows at N in {16,32}. Conv2dHelper: 9 designated shapes x 12 variants plus 8000 sampled (batch, cin, cout in [1,3], kernel 1..4 x 1..4, image up to 12x12, N in {32,64,128}, 3 objectives, both directions, BFV/CKKS). rns_plain: 2000 programs (2-4 plain moduli, slot and polynomial mode). distinct = distinct (helper, N, scheme, objective, packing, direction, shape) with a non-zero weight operand. rns_plain programs draw the API form per step (incl. the destination form of relinearize) and end, when linear, with mod_switch_to_next in one of its three forms";
+    let rule_thorough = "Cheetah MatmulHelper: every shape (m,r,n) in [1,10]^3 plus the boundary shapes with dimensions from {N-1,N,N+1,2N+1,3N} (one, two or three large dimensions), at N in {8,16,32} x {BFV t=2^k, CKKS} x 3 objectives x pack_lwe on/off x {matmul, matmul_reverse, and their sum for CpAddPc}: this finite configuration space is enumerated completely (operand value class, t, transport {serialize_terms, serialize, none} and encryption mode are sampled per configuration); plus 4 example shapes at N in {1024,4096,8192}. BOLT Cp/CcCr/CcDc: every shape in [1,8]^3 plus 9 shapes beyond N/2 rows at N in {16,32}, plus partial-last-block shapes at N in {64,256,1024,4096}. Conv2dHelper: 9 designated shapes x 12 variants, 120000 sampled (batch, cin, cout in [1,3], kernel 1..4 x 1..4, image up to 12x12, N in {32,64,128}, 3 objectives, both directions, BFV/CKKS) and 4 large shapes at N in {1024,4096}. rns_plain: 20000 programs (2-4 plain moduli, slot and polynomial mode). distinct = distinct (helper, N, scheme, objective, packing, direction, shape) with a non-zero weight operand. rns_plain programs draw the API form per step (incl. the destination form of relinearize) and end, when linear, with mod_switch_to_next in one of its three forms";
     PropMeta {
         id: P, level: "exploration",
         rule: cfg.pick(rule_quick, rule_thorough),
